@@ -874,8 +874,14 @@ func c20ValRandom(c *core.Ctx) {
 		c20Run(c, c20Case{Kind: "val-server", PB: c20PB(sc)})
 		c20Run(c, c20Case{Kind: "val-server-full", PB: c20PB(sc)})
 		cc := c20ClientConfig(c, 0.6, i%2 == 0)
-		if i%3 == 1 && len(cc.Profiles) > 0 {
-			c20ValDamageProfile(cc.Profiles[c.Rand.Intn(len(cc.Profiles))], c.Rand.Intn(28))
+		if i%3 == 1 && len(cc.Profiles) > 0 { // one profile replaced by the reference profile with one check failing
+			j := c.Rand.Intn(len(cc.Profiles))
+			g := c20ValGoodProfile()
+			c20ValDamageProfile(g, c.Rand.Intn(28))
+			if g.ProfileName != nil && g.GetProfileName() != "" {
+				g.ProfileName = cc.Profiles[j].ProfileName
+			}
+			cc.Profiles[j] = g
 		}
 		if i%5 == 2 && len(cc.Profiles) > 0 {
 			c20Damage(c, cc.Profiles[0])
